@@ -66,6 +66,15 @@ def gen(rng, mp, n, kind):
         for i in range(n):
             A[i, i] = sum(abs(mp.re(A[i, j])) + abs(mp.im(A[i, j])) for j in range(n) if j != i) + rng.randint(1, 5)
         return A, True
+    if kind == "imag_axis":
+        # spectrum on the positive imaginary axis (negative real determinant for even sizes): the square root / logarithm take the
+        # route that first rotates the matrix off the branch cut
+        n = max(2, n)
+        A = mp.matrix(n, n)
+        for i in range(n):
+            A[i, i] = mp.mpc(0, rng.randint(1, 9))
+            for j in range(i + 1, n): A[i, j] = mp.mpc(rng.randint(-3, 3), rng.randint(-2, 2))
+        return A, True
     raise ValueError(kind)
 
 
@@ -186,6 +195,10 @@ def expdiag_case(c, idx, p, cplx, method):
     d = [mp.mpc(ent(), ent()) if cplx else ent() for _ in range(n)]
     if all(x == 0 for x in d):
         d[0] = mp.mpf(1)
+    if rng.random() < 0.3 and p <= 64:
+        # small norm (1/64 ... 1/8): the scaling exponent of the Taylor method must not go negative
+        d = [(mp.mpc(rng.randint(-32, 32), rng.randint(-32, 32)) if cplx else mp.mpf(rng.randint(-32, 32))) / 512 for _ in range(n)]
+        if all(x == 0 for x in d): d[0] = mp.mpf(1) / 64
     D = mp.diag(d)
     base = {"prec": p, "n": n, "complex": cplx, "method": method, "D": qprops.raw(D), "fn": "expm(diag)"}
     X, exc = call(c, "expm_diag_" + method, lambda: mp.expm(D, method=method), D)
@@ -248,7 +261,7 @@ def run_interval(tag, items, timeout=120):
         return list(ex.map(one, items))
 
 
-FAMS = ["spd", "hpd", "pdp", "pdp_complex", "diagdom", "diagdom_complex"]
+FAMS = ["spd", "hpd", "pdp", "pdp_complex", "diagdom", "diagdom_complex", "imag_axis"]
 
 
 def build(rep, tier_, rng):
@@ -262,6 +275,10 @@ def build(rep, tier_, rng):
         for idx in range(N):
             p = rng.choice(precs); mp.prec = p
             kind = FAMS[idx % len(FAMS)]
+            if kind == "imag_axis":
+                # the first visits at a low precision, later ones at high precision (constants kept from an earlier call must not
+                # limit the accuracy of a later one)
+                p = 30 if idx < 2 * len(FAMS) else rng.choice([150, 200]); mp.prec = p
             n = rng.randint(1, 6)
             A, cplx = gen(rng, mp, n, kind)
             if not norm_ok(A):
